@@ -34,6 +34,8 @@ PROFILES = {
     'mirror':    dict(BASE, verboseMethods=1, logAnswers=1, structDump=1, pGuardCancel=100, pGuardIssue=80, wReset=2, wExitEnter=2, wQuery=2),
     'mirror-idle': dict(BASE, verboseMethods=1, logAnswers=1, structDump=1, pIssue=2, maxBatch=1, pGuardCancel=0, pGuardIssue=0, wQuery=0, wReact=0, wImmediate=1, wReset=0, wExitEnter=0),
     'mirror-plans': dict(BASE, verboseMethods=1, logAnswers=1, structDump=1, planDump=1, wPlanEdit=3, wExtStatus=2, pSucceed=150, pFail=40, pHeadStatus=50, pGuardCancel=40, pGuardIssue=20, pIssue=15, maxBatch=1),
+    'burst':     dict(BASE, maxBatch=14, pIssue=300, pGuardIssue=500, pGuardCancel=120, wSaveLoad=10, wPlanEdit=3, wExtStatus=1, pSucceed=150, pFail=30, pPlanInCb=300, planDump=0, wReset=1, wExitEnter=1, wRecreate=10),
+    'ordinary':  dict(BASE, wSaveLoad=8, wPlanEdit=2, wExtStatus=1, pSucceed=80, pFail=20, pPlanInCb=40, wReset=1, wExitEnter=1, wRecreate=5, replica=0),
     'payload':   dict(BASE, pGuardCancel=60, pGuardIssue=100, pIssue=80, maxBatch=4),
 }
 
@@ -43,12 +45,12 @@ SHAPE_PROPS = {
     'C02': dict(profiles=['requests', 'single', 'mixed'], title='prescribed configuration'),
     'C03': dict(profiles=['lifecycle', 'mixed'], title='lifecycle callbacks'),
     'C04': dict(profiles=['guards', 'guards-lo'], title='guards / veto / rounds'),
-    'C11x': dict(profiles=['mixed'], title='asserts (temporary)'),
     'C05': dict(profiles=['order', 'order-lo'], title='delivery order'),
     'C06': dict(profiles=['plans'], title='plans'),
     'C07': dict(profiles=['plans-edit', 'plans'], title='plan storage'),
     'C08': dict(profiles=['serial'], title='save/load'),
     'C09': dict(profiles=['history', 'replica', 'single'], title='history'),
+    'C11': dict(profiles=['ordinary', 'burst'], title='memory safety / UB / assertions / allocation', flavours={'quick': ['clang-asan', 'gcc'], 'thorough': ['clang-asan', 'gcc-asan', 'gcc', 'clang-dev', 'gcc-O2']}),
     'C12': dict(profiles=['utility', 'utility-hostile'], title='utility / random selection'),
     'C16': dict(profiles=['mirror', 'mirror-idle', 'mirror-plans'], title='logger / structure report'),
     'C13': dict(profiles=['single', 'mixed'], title='queries'),
@@ -64,6 +66,7 @@ RULES = {
     'C07': 'evaluations = plan edits (append / remove-while-iterating / clear) applied and compared; distinct_nontrivial = distinct (shape, per-region task id lists) plan contents observed',
     'C08': 'evaluations = save/load pairs between two independently walked instances; distinct_nontrivial = distinct (shape, destination configuration before, saved active, saved resumable) triples',
     'C09': 'evaluations = steps whose previousTransitions()/lastTransitionTo() were compared with the interpreter; distinct_nontrivial = distinct (shape, recorded history, configuration) with a non-empty history',
+    'C11': 'evaluations = API operations executed under AddressSanitizer/UBSan or with live library assertions (HFSM2_VERIF); distinct_nontrivial = distinct (shape, active, resumable) configurations reached while doing so',
     'C12': 'evaluations = select/utility/random resolutions compared with the interpreter (weighted draws additionally re-checked in exact rational arithmetic); distinct_nontrivial = distinct (region, rank vector, utility vector, generator output) draws and (region, utility vector) choices',
     'C16': 'evaluations = user callbacks matched against the logger stream plus structure()/activityHistory() snapshots; distinct_nontrivial = distinct (shape, activity-history vector) values observed after a change',
     'C13': 'evaluations = quiescent query checks; distinct_nontrivial = distinct (shape, configuration before, after) of single-request rounds whose isPending* vectors were compared with the enter/exit callbacks',
@@ -156,7 +159,7 @@ def shape_engine(prop, tier, seed, keep=False):
     if os.environ.get('VERIF_PROFILES'): conf['profiles'] = os.environ['VERIF_PROFILES'].split(',')   # debugging aid
     V = vlib.Verdict(prop, tier, seed)
     vlib.prune_cache()
-    flavours = list(T['flavours'])
+    flavours = list(conf.get('flavours', {}).get(tier, T['flavours']))
     joindiff = vlib.join_differs()
     if joindiff and 'clang-dev' not in flavours: flavours.append('clang-dev')
     shapeset = shp.shape_set(seed, T['n_random'])
